@@ -6,7 +6,7 @@
 //! request  {"root": abs canonical dir, "cwd": dir relative to root, "jpaths": [abs dir strings],
 //!           "faults": [k, ...]  (0-based index over all resolver calls of the history),
 //!           "ops": [{"kind": "import"|"importstr"|"importbin", "path": str, "sel": "v"|"lz0"..,
-//!                    "noj": bool}, ...]}
+//!                    "from": "default"|"noj"|"dir:<rel>"}, ...]}
 //!       or {"clipath": {"root":.., "cwd":.., "jflags": [..], "env": str|null, "names": [..]}}
 //! answer   {"results": [{"num": bits}|{"str": hex}|{"bin": hex}|{"err": kind}|{"panic":..}],
 //!           "log": [["resolve", from, path, outcome] | ["load", path, outcome] | ["trace", label]],
@@ -24,7 +24,7 @@ use jrsonnet_evaluator::{
 	IStr, ImportResolver, Result, State, Val,
 };
 use jrsonnet_gcmodule::Acyclic;
-use jrsonnet_ir::{SourceDefaultIgnoreJpath, SourceFile, SourcePath};
+use jrsonnet_ir::{SourceDefaultIgnoreJpath, SourceDirectory, SourceFile, SourcePath};
 use jrsonnet_stdlib::{ContextInitializer, TracePrinter};
 use serde_json::{json, Value};
 
@@ -43,6 +43,8 @@ fn rel(root: &str, p: &Path) -> String {
 fn src_name(root: &str, s: &SourcePath) -> String {
 	if let Some(f) = s.downcast_ref::<SourceFile>() {
 		format!("file:{}", rel(root, f.path()))
+	} else if let Some(d) = s.downcast_ref::<SourceDirectory>() {
+		format!("dir:{}", rel(root, d.path()))
 	} else if s.downcast_ref::<SourceDefaultIgnoreJpath>().is_some() {
 		"noj".to_owned()
 	} else if s.is_default() {
@@ -156,13 +158,16 @@ fn out_val(v: &Val) -> Value {
 	}
 }
 
-fn one_op(s: &State, op: &Value) -> Value {
+fn one_op(s: &State, root: &str, op: &Value) -> Value {
 	let kind = op["kind"].as_str().unwrap_or("import");
 	let path = op["path"].as_str().unwrap_or("");
 	let sel = op["sel"].as_str().unwrap_or("v");
-	let noj = op["noj"].as_bool().unwrap_or(false);
-	let r: Result<Val> = if noj {
-		let from = SourcePath::new(SourceDefaultIgnoreJpath);
+	let from_s = op["from"].as_str().unwrap_or("default");
+	let r: Result<Val> = if from_s != "default" {
+		let from = match from_s.strip_prefix("dir:") {
+			Some(d) => SourcePath::new(SourceDirectory::new(Path::new(root).join(d))),
+			None => SourcePath::new(SourceDefaultIgnoreJpath),
+		};
 		match kind {
 			"import" => s.import_from(&from, path).and_then(|v| select(v, sel)),
 			"importstr" => s
@@ -266,7 +271,7 @@ pub fn handle(req: &Value) -> Value {
 	let mut marks = Vec::new();
 	if let Some(Value::Array(ops)) = req.get("ops") {
 		for op in ops {
-			let o = std::panic::catch_unwind(std::panic::AssertUnwindSafe(|| one_op(&s, op)));
+			let o = std::panic::catch_unwind(std::panic::AssertUnwindSafe(|| one_op(&s, &root, op)));
 			results.push(match o {
 				Ok(v) => v,
 				Err(_) => json!({"panic": crate::util::LAST_PANIC
